@@ -722,11 +722,18 @@ def select(seed, tier, limit=None):
     if tier == "quick":
         allseq = sequences(4) + [s for s in sequences(5) if rng.random() < 0.02]
     else:
+        # thorough: every kind sequence of depth <= 4 when the cap allows it (otherwise a seeded 80% share of the cap),
+        # plus a seeded sample of depth-5 sequences for the rest
         s5 = sequences(5)
         s4 = set(sequences(4))
         deep = [s for s in s5 if s not in s4]
         rng.shuffle(deep)
-        allseq = sorted(s4) + deep[:(limit or 2000) - min(len(s4), (limit or 2000))] if len(s4) < (limit or 2000) else sorted(s4)
+        cap = limit or 2600
+        shallow = sorted(s4)
+        if len(shallow) > (cap * 4) // 5:
+            rng.shuffle(shallow)
+            shallow = shallow[:(cap * 4) // 5]
+        allseq = shallow + deep[:max(0, cap - len(shallow))]
     order = list(allseq)
     rng.shuffle(order)
     chosen = []
